@@ -532,6 +532,12 @@ class SOMEIPSDEntry:
         no2 = typing.cast(int, self.num_options_2)
         if not (0 <= no1 <= 0x0F and 0 <= no2 <= 0x0F):
             raise struct.error("number of options per run must be in range 0..15")
+        if (
+            self.sd_type
+            in (SOMEIPSDEntryType.Subscribe, SOMEIPSDEntryType.SubscribeAck)
+            and self.minver_or_counter & ~0xFFFFF
+        ):
+            raise struct.error("counter and eventgroup_id must fit in 4 + 16 bits")
         return self.__format.pack(
             self.sd_type.value,
             oi1,
